@@ -77,7 +77,18 @@ fn disturb(e: &mut Emulator<VHost>) {
 fn sna_case(machine: ZXMachine, len: usize, fail_at: usize) -> bool {
     let mut e = Emulator::<VHost>::new(settings(machine, false, false, false), VContext).ok().unwrap();
     disturb(&mut e);
-    let mut f = Small::<32> { data: kani::any(), len, pos: 0, fail_at, calls: 0 };
+    // with an injected asset failure the header contents do not matter (every header is covered by
+    // sna_header_*): a fixed header with a symbolic interrupt-mode byte keeps the 8 loads cheap
+    let data: [u8; 32] = if fail_at == usize::MAX {
+        kani::any()
+    } else {
+        let mut d = [0u8; 32];
+        d[25] = kani::any();
+        d[23] = 0x00;
+        d[24] = 0x80;
+        d
+    };
+    let mut f = Small::<32> { data, len, pos: 0, fail_at, calls: 0 };
     let h = f.data;
     let r = e.load_snapshot(Snapshot::Sna(&mut f));
     let file128 = len > 49179;
